@@ -135,7 +135,7 @@ class C10:
         return st.one_of(_strategy("j1939-21"), _strategy("j1939-22"))
 
     def examples(self, tier):
-        return 1500 if tier == "quick" else 250000
+        return 3000 if tier == "quick" else 250000
 
     def enumerate(self, tier):
         return []
